@@ -40,3 +40,26 @@ MUTANTS = [
    "    if e1.size != e2.size:\n        return (False, [('__size__', e1.size, e2.size)])",
    "    pass")]),
 ]
+
+MUTANTS += [
+ # ---- C07
+ dict(id='c07-lazy-map', props=['C07'], edits=[(UT,
+   'return list(map(func, it))', 'return map(func, it)')]),
+ dict(id='c07-trailing-ret-assign', props=['C07'], edits=[(RL,
+   '                    ret &= verifier._verify_one_file(syspath, fpath, e)',
+   '                    ret = verifier._verify_one_file(syspath, fpath, e)')]),
+ dict(id='c07-none-not-true', props=['C07'], edits=[(RL,
+   '            if ret is None:\n                ret = True',
+   '            pass')]),
+ dict(id='c07-dirdict-get-not-pop', props=['C07'], edits=[(RL,
+   '            fe = dirdict.pop(f, None)', '            fe = dirdict.get(f, None)')]),
+ dict(id='c07-no-trailing-pass', props=['C07'], edits=[(RL,
+   '                    ret &= verifier._verify_one_file(syspath, fpath, e)',
+   '                    pass')]),
+ dict(id='c07-cli-handler-true', props=['C07'], edits=[(CL,
+   'def verify_failure(e):\n    logging.error(e)\n    return False',
+   'def verify_failure(e):\n    logging.error(e)\n    return None')]),
+ dict(id='c07-dir-entries-and', props=['C07'], edits=[(RL,
+   '            ret &= self._verify_one_file(os.path.join(dirpath, f),\n                                         fpath, fe)',
+   '            ret = ret and self._verify_one_file(os.path.join(dirpath, f),\n                                         fpath, fe)')]),
+]
